@@ -189,6 +189,7 @@ func checkC08(c *Ctx) Meta {
 }
 
 func checkBestProof(c *Ctx, f *ssa.Function) {
+	setBindCtx(f)
 	// the returned template
 	var tmpl *ssa.Alloc
 	allInstrsNew(f, func(in ssa.Instruction) {
@@ -555,6 +556,7 @@ func sameCell(a, b ssa.Value) bool {
 }
 
 func checkSolveBlock(c *Ctx, s *ssa.Function) {
+	setBindCtx(s)
 	asm := callsIn(s, pkgMiner+".assembleFullBlock")
 	var pocHash, sign *ssa.Call
 	allInstrs(s, func(in ssa.Instruction) {
@@ -642,6 +644,7 @@ func checkSolveBlock(c *Ctx, s *ssa.Function) {
 }
 
 func checkAssemble(c *Ctx, a *ssa.Function) {
+	setBindCtx(a)
 	want := map[string]func(s *slice) bool{
 		"Timestamp": func(s *slice) bool { return s.hasField(pkgMiner+".ProofTemplate", "time") },
 		"Target": func(s *slice) bool {
@@ -681,6 +684,7 @@ func checkAssemble(c *Ctx, a *ssa.Function) {
 }
 
 func checkSubmit(c *Ctx, sb *ssa.Function) {
+	setBindCtx(sb)
 	var pb *ssa.Call
 	allInstrs(sb, func(in ssa.Instruction) {
 		if cl, ok := in.(*ssa.Call); ok && callName(cl) == "ProcessBlock" {
